@@ -108,6 +108,7 @@ def fragSemOut (o : Outcome) : String :=
   | .unit => "ok:(nil)"
   | .ret v => "ok:" ++ showVal o.st v
   | .err c => "err:" ++ c
+  | .uerr _ => "err:error"
   | .brk | .cont => "err:compile"
   | .oof => "oof"
   | .unsupported w => "unsupported:" ++ w
